@@ -317,7 +317,16 @@ struct SessionT final : Session {
         if (op == "insert_range") {
             auto const& ks = l.list("ks");
             std::vector<int> v(ks.begin(), ks.end());
-            s.insert(static_cast<int const*>(v.data()), static_cast<int const*>(v.data() + v.size()));
+            if (l.i("su", 0) == 1) {
+                // insert(sorted_unique, first, last): the generator hands a sequence sorted w.r.t. the comparator and unique
+                if constexpr (is_ss) {
+                    return "bad-op\tbad-op";
+                } else {
+                    s.insert(etl::sorted_unique, static_cast<int const*>(v.data()), static_cast<int const*>(v.data() + v.size()));
+                }
+            } else {
+                s.insert(static_cast<int const*>(v.data()), static_cast<int const*>(v.data() + v.size()));
+            }
             for (int k : v) {
                 if (scur.count(k) == 0 && scur.size() >= static_cast<std::size_t>(CAP)) continue;
                 scur.insert(k);
